@@ -168,7 +168,13 @@ macro_rules! bezier_impl_any {
                     (t, self.evaluate(t))
                 });
                 // half_interval = 1/(2*steps)
-                let h = (steps_f + steps_f).recip();
+                // NOTE: With no coarse sample (steps == 0) that would be infinite and the search below
+                // would never terminate; search from the end point with half of the curve instead.
+                let h = if steps == 0 {
+                    (T::one() + T::one()).recip()
+                } else {
+                    (steps_f + steps_f).recip()
+                };
                 self.binary_search_point(p, it, h, epsilon)
             }
             // TODO: Test this! binary_search_point
